@@ -52,6 +52,11 @@ Look beyond the functions named in the anchors - at the code they call and at th
   (b) one must be in how yatiml INSPECTS PYTHON types and classes (typing generics and their __origin__/__args__, Optional/Union normalisation and member order, nested generics, inspect.signature / getfullargspec, defaults, keyword-only or positional-only parameters, dataclasses, enums and enum aliases, ABCs, classes that inherit __init__, str/UserString subclasses, __dict__ versus hasattr) - a case that one of these reports differently from what the code assumes;
   (c) one must be on an ERROR or CLEAN-UP path: what happens after something failed (an exception converted or swallowed too broadly or too narrowly, a message built from the wrong node, state or a resource not restored after a failure, a fallback branch that is taken in one more case than intended).
 Look beyond the functions named in the anchors - at the code they call and at the rarely used kinds of classes, types and YAML features that the library's documentation says it supports.''',
+    6: '''Make them the kind of change that is made WITH GOOD INTENTIONS and reviewed quickly, each different from the others:
+  (a) one PERFORMANCE change: a cache or memo (per class, per loader, per module), an early exit or fast path for the common case, work moved out of a loop or done lazily, a cheaper comparison replacing an exact one;
+  (b) one ROBUSTNESS or CONVENIENCE change: accepting a little more than before (stripping or normalising text, tolerating a missing or None value, catching a broader exception, a fallback default), or a friendlier error message that needs extra look-ups;
+  (c) one MODERNISATION or CLEAN-UP: replacing a hand-written loop by a comprehension, any()/all(), dict/set operations, a standard-library helper (functools, itertools, inspect, typing, copy, contextlib), merging two similar branches, removing an apparently redundant check or copy.
+In each case the change must look equivalent to the old code on everything the tests and the documentation examples do. Look beyond the functions named in the anchors - at the code they call and at the rarely used kinds of classes, types and YAML features that the library's documentation says it supports.''',
 }
 
 
